@@ -5,6 +5,7 @@ pub mod c04;
 pub mod c05;
 pub mod c06;
 pub mod c07;
+pub mod c09;
 pub mod c13;
 pub mod c16;
 pub mod c18;
@@ -21,6 +22,7 @@ pub fn dispatch(ctx: &Ctx) -> Option<(Spec, Report)> {
         "C05" => c05::run(ctx),
         "C06" => c06::run(ctx),
         "C07" => c07::run(ctx),
+        "C09" => c09::run(ctx),
         "C13" => c13::run(ctx),
         "C16" => c16::run(ctx),
         "C18" => c18::run(ctx),
